@@ -519,6 +519,15 @@ func (s *SQLiteStore) streamBatch(
 		}
 	}
 
+	// rows.Next also returns false when iteration failed (I/O error, cancelled
+	// context): without this check a cut-short batch looks like the end of the log
+	if err := rows.Err(); err != nil {
+		rows.Close() // Best effort close, iteration error takes precedence
+		*iterErr = fmt.Errorf("sqlite: iterate events: %w", err)
+		yield(nil, *iterErr)
+		return batchCount, lastPos, false
+	}
+
 	if err := rows.Close(); err != nil {
 		*iterErr = fmt.Errorf("sqlite: close rows: %w", err)
 		yield(nil, *iterErr)
